@@ -64,7 +64,7 @@ CLAIMS.update({
             "text": "ConstPool::add is verified against: returned offsets aligned to the constant's size and inside the pool, the pool only grows, pool alignment covers every constant, a new slot comes "
                     "from free space (a registered gap or beyond the old end) and the remaining registered gaps stay well-formed and disjoint from it, a dedup hit returns the existing offset "
                     "unchanged, invalid sizes are rejected without change, allocation failure is kOutOfMemory and never a NULL dereference. The red-black tree and arena are abstracted by ASSUMED "
-                    "stubs. One unit per constant size (quick: 16, 64 and all invalid sizes; thorough: every size) over 0..2 registered gaps per class; pre/post only (no frame check) for add(). "
+                    "stubs. One unit per constant size (quick: 16, 64 and all invalid sizes over 0..1 registered gaps per class; thorough: sizes 2..64 - sizes 2/4/8 over 0..1, 16/32/64 over 0..2 gaps per class; size 1 does not finish and is not covered); pre/post only (no frame check) for add(). "
                     "ConstPool::reset returns any pool to the constructed state. Partial: fill(), tree internals.",
             "note": COMMON_NOTE + " Tree::get/insert/new_node_t and Arena::alloc_oneshot<Gap> are assumed stubs (trusted abstraction); ConstPool::add runs without goto-instrument's frame check."},
     "C01": {"category": "proof",
